@@ -15,12 +15,15 @@ RULE = ("streams: ell (every table ellipsoid + default + random set_ab/af/af1; l
         "IsInteger/IsFloat/deg2gon, three parties: real code = model of the scanner = derivative matcher of the documented "
         "grammar with the numeric ranges; plus structured longer strings incl. int and double overflow). distinct = distinct op line; non-trivial = ell: not on the axis; ang: non-zero angle; "
         "brg: d >= 1e-6; lit: accepted by at least one recogniser")
-TRUSTED = ["tools/gen/c18_angles.py (cfun front end; pinned token text of the two ostringstream tails and of the four while loops), "
-           "tools/gen/c18_published.py (attribute reader of xml/ellipsoids.xml, cross-checked against xml.etree)",
+TRUSTED = ["tools/gen/c18_angles.py (cfun front end for the numeric statements; the two ostringstream tails and the four while loops are "
+           "compared with pinned token text and emitted as the hand model's tail / whileGeSub / whileNegAdd)",
+           "tools/gen/c18_published.py (attribute reader of xml/ellipsoids.xml, the project's own published list; cross-checked against xml.etree)",
            "tools/gen/c18_ellipsoid.py + tools/gen/cfun.py (C++ statement/expression front end; every member function of class "
            "Ellipsoid regenerated as a Lean definition, proved equal to the hand model; also executed against the C++ by the correspondence)",
            "tools/gen/c18_ellipsoids.py (regex reader of ellipsoids.{h,cpp}; cross-checked enum/id/caption/switch/strcmp views, "
-           "and executed against the C++ on every ellipsoid by the correspondence)",
+           "and executed against the C++ on every ellipsoid by the correspondence; also the six patch-presence flags of Gen/GeoVariants.lean "
+           "- gon2deg/latlong carry and fabs, IsInteger needs a digit, Bowring clamp - by regex on gon2deg.cpp, latlong.cpp, ellipsoid.cpp, intfloat.h)",
+           "Model/Angles.lean deg2gon (scanner), Model/Bearing.lean, Model/GeoLiterals.lean (IsInteger / IsFloat): hand models, correspondence only",
            "python oracle for printed angle strings (regular expressions per sign mode)"]
 MODELLED = ["libm sin/cos/atan2/sqrt (shared between model execution and C++; theorems use Mathlib's real functions)",
             "IEEE rounding of the field splitting (theorems are over Q/R exact arithmetic)",
@@ -48,13 +51,15 @@ LEVEL_TEXT = ("Lean 4 theorems over R (Mathlib trig, Complex.arg as atan2) and Q
               "the hand model (C18_angles_source_tie); string round trips deg2gon(rad2deg_str rad) and deg2gon(latlong rad) for every "
               "rational value of M_PI (the text latlong writes reads back within half a unit of the printed precision, signed, for "
               "negative angles below 1000 deg - 0.5\": beyond it the sign overwrites the leading digit, NEG witness); the code's "
-              "ellipsoid table equals the published list xml/ellipsoids.xml row by row, both directions, same order, by value "
-              "(C18_table_is_published, C18_published_is_in_table, decide on two regenerated tables: a typo in a constant breaks it).")
+              "ellipsoid table equals the list the project publishes in xml/ellipsoids.xml (= doc/ellipsoids.texi; not an external standard) "
+              "row by row, both directions, same order, by value "
+              "(C18_table_is_published, C18_published_is_in_table, decide on two regenerated tables: a typo in a constant breaks it). "
+              "Round 7: the off-surface triple is also stated for the regenerated functions (C18_roundtrip_offsurface_source).")
 LEVEL_NOTE = ("Theorems are in exact arithmetic (IEEE rounding, libm, strtod not modelled); the ellipsoid model (setters, W N M V F, "
               "blh2xyz, xyz2blh with both Bowring passes and both height formulas) is proved EQUAL to definitions regenerated from "
               "ellipsoid.{h,cpp} on every run (C18_ellipsoid_source_tie); so are gon2deg, latlong, rad2deg_str, dms2rad, rad2dms "
               "(C18_angles_source_tie; the iostream part of the two formatters is pinned text); deg2gon (the scanner), bearing and the "
-              "literal recognisers are hand models tied by correspondence. "
+              "literal recognisers are hand models tied by correspondence; M_PI in the string theorems is any positive rational, not pi. "
               "Defects found and repaired by fix: commits (the models carry both variants, selected by the translator): "
               "seconds printed as 60.00 (F14), -0.0 printed as -0.00, NaN from xyz2blh at the poles, IsInteger accepting a lone "
               "sign. Known finding C18-F3: dms2rad misreads decimal ddd.mmss literals by 40 arc seconds (binary rounding before "
